@@ -8,11 +8,11 @@ PROPS = {
     "C15": {"suites": [copy.CopyOverlay], "assumptions": ["idempotence reading: see DESIGN.md C15-T3"]},
     "C16": {"suites": [copy.CopyFilter, filt.PatternSuite], "assumptions": ["reference set = parent-result filter walk (what Walk reports); the naive-matcher difference is finding F5"]},
     "C18": {
-        "suites": [follow.Dedupe, follow.FollowLinks],
+        "suites": [follow.Dedupe, follow.FollowLinks, sync.FollowSend],
         "assumptions": ["filepath.Match is modelled for *, ?, simple classes and escapes"],
     },
     "C11": {
-        "suites": [sync.SendFilter, filt.FilterC11],
+        "suites": [sync.SendFilter, filt.FilterC11, sync.FollowSend],
         "assumptions": ["moby/patternmatcher modelled for the declared fragment"],
     },
     "C10": {
